@@ -52,54 +52,44 @@ Theorem C07_promoted_host_keeps_hosting :
     pget hosting false s k = true -> pget hosting false s' k = true.
 Proof. exact PromotionProofs.promoted_host_keeps_hosting. Qed.
 
-(* Known finding S8 (open; reproduced on the real code: corpus/proto/S8_*.scn, and the authors' own
-   #[ignore]d test): with a second client the statement is false. After the repair 7fb659b every
-   other peer DOES become a connected client of the new host, but (1) the old host keeps hosting for
-   ever next to the new one whenever its promotion flag is consumed (it connects to the new host)
-   before its last old client has timed out, and (2) the flag of every non-promoted client stays
-   set for ever. Machine-checked witness: the real run. *)
-Theorem C07_two_clients_refuted :
-  exists tr s,
-    all_internal tr /\ run (promoted 2 1) tr = Some s /\
-    stable s /\ hosts s = [0; 1] /\ repaired_outcome s 1 /\
-    pget clients [] s 1 = [0; 2] /\ pget clients [] s 0 = [] /\
-    pget flag false s 2 = true /\
-    ~ session_ok s 1 /\ ~ session_ok_roles s 1.
-Proof. exact PromotionProofs.C07_refuted_two_clients. Qed.
-
-Theorem C07_statement_two_clients_false : ~ C07_statement 2 1.
-Proof. exact PromotionProofs.C07_statement_two_clients_false. Qed.
-
-(* ... what DOES hold with two clients, for every run: it terminates, and every stable end state has
-   the new host hosting exactly all other peers, every other peer a connected client of it with a
-   live link — and the old host with an empty client table, its server closed or still open *)
-Theorem C07_two_clients_every_run :
+(* TWO and THREE clients (finding S8, repaired by 7fb659b and b8e47f4): whatever the interleaving, the
+   hand-over terminates (at most 50 / 64 events), every run that cannot be continued is the goal
+   state — exactly the promoted peer hosts, every other peer (the former host included) is nothing
+   but its connected client with a live link and clear flags, no traffic — and every run can be
+   completed to such a state. (A state is stable only when the former host has learnt, through
+   renet's time-out, that its remaining clients are gone.) *)
+Theorem C07_two_clients_promotion :
   forall tr s, all_internal tr -> run (promoted 2 1) tr = Some s ->
     (length tr + measure s <= measure (promoted 2 1%N))%nat
-    /\ (stable s -> repaired_outcome s 1 /\ length (pget clients [] s 1) = 2%nat /\
-                    (hosts s = [1] \/ hosts s = [0; 1]) /\ ~ session_ok s 1)
-    /\ (exists tr' s', all_internal tr' /\ run s tr' = Some s' /\ stable s' /\ repaired_outcome s' 1).
-Proof. exact PromotionProofs.C07_two_clients_every_run_repaired. Qed.
+    /\ (stable s -> session_ok s 1 /\ promotion_outcome s 1 /\ length (pget clients [] s 1) = 2%nat)
+    /\ (~ stable s -> exists e s', internal e = true /\ step s e = Some s' /\ (measure s' < measure s)%nat)
+    /\ (exists tr' s', all_internal tr' /\ run s tr' = Some s' /\ stable s' /\ session_ok s' 1 /\ promotion_outcome s' 1).
+Proof. exact PromotionProofs.C07_two_clients_promotion. Qed.
 
-(* ... for ANY number of clients: another client is an ordinary client of the old host until it obeys
-   NewHost and a client of the new host (fresh RenetClient, flag set) from then on; the goal state
-   is reached at no point of any run *)
-Theorem C07_never_with_more_clients :
-  forall n k c tr s,
-    k ∈ client_ids n -> c ∈ client_ids n -> c <> k -> all_internal tr -> run (promoted n k) tr = Some s ->
-    (exists x, ps s !! c = Some x /\ (untouched s c x \/ moved s k c x)) /\
-    ~ session_ok s k.
-Proof. exact PromotionProofs.C07_never_with_more_clients. Qed.
+Theorem C07_three_clients_promotion :
+  forall tr s, all_internal tr -> run (promoted 3 1) tr = Some s ->
+    (length tr + measure s <= measure (promoted 3 1%N))%nat
+    /\ (stable s -> session_ok s 1 /\ promotion_outcome s 1 /\ length (pget clients [] s 1) = 3%nat)
+    /\ (~ stable s -> exists e s', internal e = true /\ step s e = Some s' /\ (measure s' < measure s)%nat)
+    /\ (exists tr' s', all_internal tr' /\ run s tr' = Some s' /\ stable s' /\ session_ok s' 1 /\ promotion_outcome s' 1).
+Proof. exact PromotionProofs.C07_three_clients_promotion. Qed.
 
-(* ... and, any number of clients: once the hand-over is no longer pending and the old host has
-   consumed its flag while still hosting, it keeps hosting for ever *)
-Theorem C07_old_host_keeps_hosting :
-  forall n k tr s tr' s',
-    k ∈ client_ids n -> all_internal tr -> run (promoted n k) tr = Some s ->
-    ~ handover_pending k s -> pget hosting false s host = true -> pget flag true s host = false ->
-    all_internal tr' -> run s tr' = Some s' ->
-    pget hosting false s' host = true /\ pget flag true s' host = false /\ host ∈ hosts s'.
-Proof. exact PromotionProofs.old_host_keeps_hosting. Qed.
+(* the full statement, for up to three clients and any choice of the promoted client with two;
+   for EVERY number of clients the safety half: at every point of every run at most the old host and
+   the promoted peer host, every other client is still an ordinary client of the old host or has
+   moved to the new one with a fresh RenetClient that is never dead, its flags never set, and the
+   old host — while it still has its server after handling NewHost — is closing *)
+Theorem C07_up_to_three_clients_and_safety_for_all :
+  C07_statement 1 1 /\ C07_statement 2 1 /\ C07_statement 2 2 /\ C07_statement 3 1 /\
+  forall n k tr s, k ∈ client_ids n -> all_internal tr -> run (promoted n k) tr = Some s ->
+    roles_inv s /\ spi k s /\
+    (forall p, p ∈ hosts s -> p = host \/ p = k) /\
+    (forall c, c ∈ client_ids n -> c <> k ->
+       exists x, ps s !! c = Some x /\ (untouched s c x \/ moved s k c x) /\
+                 flag x = false /\ closing x = false /\ sticky x = false /\ ~ stranded x) /\
+    (forall x0, ps s !! host = Some x0 -> hosting x0 = true ->
+       closing x0 = true \/ (closing x0 = false /\ client_of x0 = None /\ flag x0 = false)).
+Proof. exact PromotionProofs.C07_all_n_partial. Qed.
 
 (* Repeated promotions (finding S9, repaired by 7fb659b): in a two-peer session the promotion back
    hands the session over again whether or not the kick of the first hand-over reached the new
@@ -122,10 +112,8 @@ Print Assumptions C07_single_client.
 Print Assumptions C07_roles_invariant.
 Print Assumptions C07_at_most_two_hosts.
 Print Assumptions C07_promoted_host_keeps_hosting.
-Print Assumptions C07_two_clients_refuted.
-Print Assumptions C07_statement_two_clients_false.
-Print Assumptions C07_two_clients_every_run.
-Print Assumptions C07_never_with_more_clients.
-Print Assumptions C07_old_host_keeps_hosting.
+Print Assumptions C07_two_clients_promotion.
+Print Assumptions C07_three_clients_promotion.
+Print Assumptions C07_up_to_three_clients_and_safety_for_all.
 Print Assumptions C07_chain.
 Print Assumptions C07_chain_forever.
